@@ -3,9 +3,31 @@ from ..core import Report
 from . import runlevel
 
 
+def budget_stress_specs(ctx):
+    """Budgets at and just above the size of the initial design, every noise mode, default and small noise_final_samples, small max_iter."""
+    from .. import gen
+    rng = ctx.sub_rng("c03stress")
+    specs = []
+    for mode in gen.MODES:
+        for extra in ((0, 1, 4, 9) if ctx.quick else (0, 1, 2, 3, 4, 6, 8, 9, 10, 12)):
+            D = rng.choice([1, 2, 3])
+            init = (D + 2) if mode == "det" else 34
+            sp = gen.make_spec(rng, D=D, geom=rng.choice(["box", "tight"]), mode=mode, cons=None)
+            sp["options"] = {"n_search": 32, "max_fun_evals": init + extra}
+            if mode != "det" and rng.random() < 0.3:
+                sp["options"]["noise_final_samples"] = rng.choice([1, 3])
+            if rng.random() < 0.2:
+                sp["options"]["max_iter"] = rng.choice([1, 2, 3])
+            specs.append(sp)
+    return specs
+
+
 def run(ctx):
     rep = Report()
-    stats, samples = runlevel.ctl_replay(ctx, rep, "C03")
+    if ctx.pid == "C03":
+        runlevel.with_extra(ctx, "c03stress", lambda: budget_stress_specs(ctx))
+        runlevel.scripted_controller_runs(ctx, "c03script", 12 if ctx.quick else 120)
+    stats, samples = runlevel.ctl_replay(ctx, rep, ctx.pid)
     traces = runlevel.get_pool(ctx)
     rep.coverage = {
         "evaluations": stats["iterations"], "distinct_nontrivial": stats["searches"] + stats["polls"],
@@ -23,7 +45,7 @@ def run(ctx):
 def replay(ctx, data):
     rep = Report()
     from .. import tracer
-    ctx._pool = [tracer.run_traced(data["case"]["spec"])]
+    ctx._pool = [tracer.run_traced(data["case"]["spec"], **(data["case"].get("kw") or {}))]
     runlevel.ctl_replay(ctx, rep, "C03")
     return rep
 
